@@ -301,6 +301,11 @@ def round_item(item, col):
                 err = "horizon"
             except senv.StepAfterEnd:
                 err = "step-after-end"
+            except AssertionError:
+                # a one-sample dataset is rejected loudly by the value loss (chex shape assertion);
+                # the budget clauses are judged on what was executed until then
+                col.outcome("single-sample_dataset_rejected_loudly")
+                err = "rejected"
             finally:
                 mod.sample_trajectories = real
             det = dict(script=sc, total_timesteps=total, steps_per_update=spu, executed=env.executed, round_starts=rounds)
@@ -316,6 +321,8 @@ def round_item(item, col):
             # each round stops at the first episode end at/after steps_per_update
             bounds = rounds + [env.executed]
             for a, b in zip(bounds[:-1], bounds[1:]):
+                if err == "rejected" and b == env.executed:
+                    pass
                 ends = [i for i in range(a, b) if sc[i] in "TU"]
                 first_ok = next((i for i in ends if i - a + 1 >= spu), None)
                 if first_ok is None or first_ok != b - 1:
